@@ -485,25 +485,25 @@ Proof. induction l as [|[k' v'] l IH]; cbn; [discriminate|]. destruct (str_eqb k
 Lemma leaf_keeps mid b vfs : keeps_children (leaf mid b vfs).
 Proof.
   intros nd nd' H. unfold Trie.leaf in H.
+  destruct (_ && _); [cbn [bind] in H|discriminate].
   destruct (match n_mall nd with Some y => conflict mid y | None => false end); [discriminate|].
   destruct (str_eqb (b_verb b) star_verb).
-  - destruct (existsb _ _); [discriminate|]. destruct (n_mall nd).
-    + inversion H; auto.
-    + destruct (_ && _); [|discriminate]. cbn in H. inversion H; auto.
+  - destruct (existsb _ _); [discriminate|]. destruct (n_mall nd); inversion H; auto.
   - destruct (assoc (b_verb b) (n_meths nd)).
     + destruct (conflict mid m); [discriminate|]. inversion H; auto.
-    + destruct (_ && _); [|discriminate]. cbn in H. inversion H; auto.
+    + inversion H; auto.
 Qed.
 
 Lemma leaf_benign mid b vfs nd : benign (leaf mid b vfs nd).
 Proof.
   unfold Trie.leaf.
+  destruct (_ && _); cbn [bind]; [|exact I].
   destruct (match n_mall nd with Some y => conflict mid y | None => false end); cbn; auto.
   destruct (str_eqb (b_verb b) star_verb).
-  - destruct (existsb _ _); cbn; auto. destruct (n_mall nd); cbn; auto. destruct (_ && _); cbn; auto.
+  - destruct (existsb _ _); cbn; auto. destruct (n_mall nd); cbn; auto.
   - destruct (assoc (b_verb b) (n_meths nd)).
     + destruct (conflict mid m); cbn; auto.
-    + destruct (_ && _); cbn; auto.
+    + cbn; auto.
 Qed.
 
 (* what is stored at the leaf afterwards: what was there, plus possibly this binding; nothing is lost;
@@ -535,12 +535,12 @@ Lemma leaf_spec mid b vfs nd nd' :
   (exists m, stored (info nd') (b_verb b) m /\ m_id m = mid).
 Proof.
   intros H. unfold Trie.leaf in H. unfold stored, info.
+  destruct (_ && _); [cbn [bind] in H|discriminate].
   destruct (n_mall nd) as [y|] eqn:Emall;
   [destruct (conflict mid y) eqn:Ec; [discriminate|]|];
   (destruct (str_eqb (b_verb b) star_verb) eqn:Ev;
    [apply str_eqb_eq in Ev; destruct (existsb _ (n_meths nd)) eqn:Ee; [discriminate|] |
     destruct (assoc (b_verb b) (n_meths nd)) as [y0|] eqn:Ea; [destruct (conflict mid y0) eqn:Ec0; [discriminate|]|]]);
-  try (destruct (_ && _); [|discriminate]; cbn [bind] in H);
   inversion H; subst nd'; clear H; cbn [n_meths n_mall fst snd].
   all: (split; [|split]).
   all: try (intros key m; rewrite ?assoc_snoc; rewrite ?Emall; destruct (assoc key (n_meths nd)) eqn:Eak;
@@ -560,6 +560,7 @@ Lemma leaf_rejects_conflict mid b vfs nd key m :
   stored (info nd) key m -> m_id m <> mid -> overlap key (b_verb b) -> exists e, leaf mid b vfs nd = Err e.
 Proof.
   intros Hns Hst Hne Hov. unfold Trie.leaf.
+  destruct (_ && _); cbn [bind]; [|eauto].
   assert (Hc : conflict mid m = true).
   { unfold conflict. apply negb_true_iff. apply str_eqb_neq. exact Hne. }
   unfold stored, info in Hst. cbn [fst snd] in Hst.
@@ -589,14 +590,15 @@ Proof.
     clear Hnd.
     (* every entry of meths' is either an old entry or the new binding *)
     unfold Trie.leaf in H. cbn [n_mall n_meths n_segs n_vars] in H.
+    destruct (_ && _); [cbn [bind] in H|discriminate].
     destruct (match mall with Some y => conflict mid y | None => false end); [discriminate|].
     destruct (str_eqb (b_verb b) star_verb).
     + destruct (existsb _ meths); [discriminate|]. destruct mall.
       * inversion H; subst. eauto.
-      * destruct (_ && _); [|discriminate]. cbn in H. inversion H; subst. eauto.
+      * inversion H; subst. eauto.
     + destruct (assoc (b_verb b) meths).
       * destruct (conflict mid m0); [discriminate|]. inversion H; subst. eauto.
-      * destruct (_ && _); [|discriminate]. cbn in H. inversion H; subst.
+      * inversion H; subst.
         apply in_app_or in Hin. destruct Hin as [Hin|[E|[]]]; [eauto|]. inversion E; subst. reflexivity.
   - intros m Hm. destruct (S1 star_verb m) as [[[_ Hs]|Ha]|[_ ->]].
     + left. split; [reflexivity|exact Hm].
@@ -681,14 +683,13 @@ Lemma leaf_nostar mid b vfs nd nd' :
   leaf mid b vfs nd = Ok nd' -> assoc star_verb (n_meths nd) = None -> assoc star_verb (n_meths nd') = None.
 Proof.
   intros H Hn. unfold Trie.leaf in H.
+  destruct (_ && _); [cbn [bind] in H|discriminate].
   destruct (match n_mall nd with Some y => conflict mid y | None => false end); [discriminate|].
   destruct (str_eqb (b_verb b) star_verb) eqn:Ev.
-  - destruct (existsb _ _); [discriminate|]. destruct (n_mall nd).
-    + inversion H; subst; auto.
-    + destruct (_ && _); [|discriminate]. cbn in H. inversion H; subst; auto.
+  - destruct (existsb _ _); [discriminate|]. destruct (n_mall nd); inversion H; subst; auto.
   - destruct (assoc (b_verb b) (n_meths nd)).
     + destruct (conflict mid m); [discriminate|]. inversion H; subst; auto.
-    + destruct (_ && _); [|discriminate]. cbn in H. inversion H; subst. cbn [n_meths].
+    + inversion H; subst. cbn [n_meths].
       rewrite assoc_snoc, Hn, Ev. reflexivity.
 Qed.
 
@@ -870,16 +871,14 @@ Proof.
   induction rs as [|r rs IH]; intros root; cbn; auto.
   pose proof (add_rule_benign mid root r) as B. destruct (add_rule mid root r); cbn in *; auto.
 Qed.
-Theorem append_handler_total root d :
-  benign (append_handler root d) \/
-  (append_handler root d = Panic PExplicit /\ exists e, add_rule (d_id d) root (implicit_rule (d_id d)) = Err e).
+Theorem append_handler_total root d : benign (append_handler root d).
 Proof.
   unfold Trie.append_handler. pose proof (add_rule_benign (d_id d) root (implicit_rule (d_id d))) as B.
   destruct (add_rule (d_id d) root (implicit_rule (d_id d))) as [r1|e| |]; cbn in B; try contradiction.
-  - left. pose proof (add_rules_benign (d_id d) (d_config d) r1) as B2.
+  - pose proof (add_rules_benign (d_id d) (d_config d) r1) as B2.
     destruct (add_rules (d_id d) r1 (d_config d)); cbn in *; auto.
     destruct (d_annot d); [apply add_rule_benign|exact I].
-  - right. split; eauto.
+  - exact I.
 Qed.
 
 End Register.
